@@ -12,7 +12,7 @@ RULE = ('operation-sequence exploration on a fresh Automaton per sequence (a '
         '(declare 3 further variables, add 6 formulas, exist / forall / let '
         'on the newest result, to_expr, reorder reversed / sifting, collect '
         'garbage, copy to a second context and back, solve and synthesize a '
-        'small game in the same automaton, repeat the previous operation): '
+        'small game in the same automaton, repeat the previous operation, declare again with identical and with conflicting hints - refused, or in force afterwards): '
         'ALL sequences up to length 3 (2 with the iterative translator; thorough 4). (b) expression-cache '
         'alphabet (init[k] := string A / string B, overwrite with TRUE, '
         'delete, drop results, collect garbage, reorder, store a freshly '
@@ -34,7 +34,7 @@ FORMULAS = ["x = 1", "y < 0 /\\ b", "x + y >= 1", "b <=> (x > y)",
 DECLS = [dict(z=(0, 5)), dict(c='bool'), dict(w=(-3, -1))]
 GEN = (['D0', 'D1', 'D2'] + ['A%d' % i for i in range(6)] +
        ['QE', 'QA', 'LET', 'TOEXPR', 'RREV', 'RSIFT', 'GC', 'COPY', 'GAME',
-        'REPEAT'])
+        'REPEAT', 'RC'])
 CACHE = ['SA', 'SB', 'TRUE', 'DEL', 'DROP', 'GC', 'RREV', 'NEW1', 'NEW2',
          'PRINT']
 CONFIGS = [('cudd', 'rec'), ('cudd', 'iter'), ('autoref', 'rec'),
@@ -237,6 +237,32 @@ def ev_game(st):
     return z
 
 
+def ev_redeclare(st):
+    """Declare again: identical hints are accepted; a call that also
+    carries a DIFFERENT hint for a declared variable is either refused
+    (ValueError) or, if accepted, in force afterwards."""
+    aut = st.aut
+    aut.declare_variables(x=BASE['x'], b='bool')      # identical: accepted
+    for d in (dict(x=(0, 9), y=BASE['y']), dict(y=BASE['y'], x=(0, 9)),
+              dict(b='bool', y=(-9, 1))):
+        try:
+            aut.declare_variables(**d)
+        except ValueError:
+            continue
+        # accepted: then it must be what the context now means
+        for v, h in d.items():
+            if h == 'bool':
+                continue
+            u = aut.add_expr(f'{v} = {h[0]}') | aut.add_expr(f'{v} = {h[1]}')
+            if aut.count(u) != (1 if h[0] == h[1] else 2):
+                raise AssertionError(
+                    f'declare({d}) was accepted, but {v} cannot take the '
+                    f'bounds of {h} afterwards: the context kept the old '
+                    'declaration without refusing the new one')
+            st.decl[v] = h
+    return None
+
+
 def run_event(st, e):
     st.n_events += 1
     if e[0] == 'D':
@@ -264,6 +290,8 @@ def run_event(st, e):
         return ev_copy(st)
     if e == 'GAME':
         return ev_game(st)
+    if e == 'RC':
+        return ev_redeclare(st)
     raise ValueError(e)
 
 
